@@ -166,7 +166,18 @@ theorem onSignal_good (hok : ∀ p k, MaySend cfg0 quitOk p k → SendOk p k) {c
 /-- the script contains no interrupt / terminate signal -/
 def NoQuitEv : Ev → Prop
   | .sig n | .mix n => n ≠ term ∧ n ≠ sigInt
+  | .eof => False          -- (a keyboard EOF quits under `--stdin-quit`)
   | _ => True
+
+theorem onEofEv_good (hok : ∀ p k, MaySend cfg0 quitOk p k → SendOk p k) {c : C} (hqo : quitOk = true)
+    (h : GoodC SendOk x0 cfg0 c) : GoodC SendOk x0 cfg0 (onEofEv c) := by
+  unfold onEofEv
+  split
+  · next m hm =>
+    refine foldl_good _ _ ?_ (c := { c with quitCount := c.quitCount + 1 }) ⟨h.1, h.2⟩
+    intro c ctls hmem hc
+    exact ⟨Reach.doSend .normal ctls false (fun k hk => hok _ _ (.quit m ctls k hqo hmem hk)) hc.1, hc.2⟩
+  · exact h
 
 theorem stepEv_good (hok : ∀ p k, MaySend cfg0 quitOk p k → SendOk p k) {c : C} (e : Ev) (hq : quitOk = false → NoQuitEv e)
     (h : GoodC SendOk x0 cfg0 c) : ∀ c' ∈ stepEv c e, GoodC SendOk x0 cfg0 c' := by
@@ -186,6 +197,12 @@ theorem stepEv_good (hok : ∀ p k, MaySend cfg0 quitOk p k → SendOk p k) {c :
       split at hc' <;> (simp only [List.mem_singleton] at hc'; subst hc')
       · exact hs
       · exact onEvent_good hok hs
+  | eof =>
+    simp only [stepEv] at hc'; split at hc' <;> (simp only [List.mem_singleton] at hc'; subst hc')
+    · exact h
+    · cases hqk : quitOk with
+      | true => exact onEofEv_good hok hqk h
+      | false => exact absurd (hq hqk) (by simp [NoQuitEv])
   | settle => exact settleC_good hok 300 h c' hc'
   | advance ms => exact advanceC_good hok 64 _ h c' hc'
 
